@@ -162,3 +162,135 @@ Example c17_witness :
   ([[112;46;107;58;55;124;109;115;124;35;120;44;97;58;98;44;99;58;100]%N], [EIo 5 9],
    [XKey; XVal; XTagKey 0; XTagVal 0; XTagKey 1; XTagVal 1], false, false).
 Proof. vm_compute. reflexivity. Qed.
+
+(* ==== added after the audit of 2026-10-02 (selftest/audit/REPORT-2026-10-02.md) ==== *)
+Require Import Cadence.Proofs.AuditM2.
+
+(* ---- A.14: the process theorems compose ---- *)
+
+(* The real life cycle of a process, from the UNSET holder: as long as nothing has been offered
+   ([pre] contains no PSet / PSetOther), then this process's client is offered.  What is observed is
+   what [pre] shows on the unset holder (c17_process_unset applies to it) followed by what [post]
+   shows on the holder set to this process's client (c17_process_mine / _reads / _set_once apply),
+   and [post] starts with the WHOLE script: the panicking invocations of [pre] consumed none of the
+   sink's answers. *)
+Theorem c17_process_split : forall cfg other pre post script,
+  Forall (fun st => is_offer st = false) pre ->
+  run_process cfg other None script (pre ++ PSet :: post) =
+  run_process cfg other None script pre ++ run_process cfg other (Some (true, cfg)) script post.
+Proof. exact process_split. Qed.
+
+(* the same when somebody else's client is offered first: [post] runs on the holder holding [other] *)
+Theorem c17_process_split_other : forall cfg other pre post script,
+  Forall (fun st => is_offer st = false) pre ->
+  run_process cfg other None script (pre ++ PSetOther :: post) =
+  run_process cfg other None script pre ++ run_process cfg other (Some (false, other)) script post.
+Proof. exact process_split_other. Qed.
+
+(* in general a process can be cut at ANY point and from ANY holder state: the observations of
+   [a ++ b] are those of [a] followed by those of [b] started where [a] ended.
+   [AuditM2.process_end cfg other g script a] = (holder, unconsumed script) after [a]: the two
+   values run_process threads through its recursion (an observation function defined in AuditM2.v) *)
+Theorem c17_process_app : forall cfg other a b g script,
+  run_process cfg other g script (a ++ b) =
+  run_process cfg other g script a ++
+  run_process cfg other (fst (process_end cfg other g script a)) (snd (process_end cfg other g script a)) b.
+Proof. intros cfg other a b g script. apply process_app. Qed.
+
+(* the composed statement in one piece: a process that starts unset, offers nothing during [pre],
+   then sets its own client.  Its observations split into A (one per non-offer step of [pre]: every
+   invocation panicked having evaluated, emitted and handled nothing, every read said "not set")
+   and B (every read says "set", nothing panics, and the invocations are, one after the other, the
+   tagged quiet sends on [cfg] consuming [script] FROM ITS START) *)
+Theorem c17_process_lifecycle : forall cfg other pre post script,
+  Forall (fun st => is_offer st = false) pre ->
+  exists A B,
+    run_process cfg other None script (pre ++ PSet :: post) = A ++ B /\
+    length A = length (filter (fun st => negb (is_offer st)) pre) /\
+    Forall (fun o => match po_flag o with
+                     | Some b => b = false
+                     | None => po_panicked o = true /\ po_emitted o = [] /\ po_handled o = [] /\ po_evals o = []
+                     end) A /\
+    Forall (fun o => match po_flag o with Some f => f = true | None => True end) B /\
+    Forall2 (fun o r => po_panicked o = false /\
+                        match r with
+                        | Some x => po_stuck o = false /\ po_emitted o = o_emitted x /\ po_handled o = o_handled x
+                        | None => po_stuck o = true
+                        end)
+            (filter (fun o => match po_flag o with None => true | Some _ => false end) B)
+            (reference_sends cfg (invocations post) script).
+Proof. exact process_lifecycle. Qed.
+
+(* ... and when another client is offered first: after it nothing panics, every read says "set",
+   and the observed client's sink and handler never see anything *)
+Theorem c17_process_lifecycle_other : forall cfg other pre post script,
+  Forall (fun st => is_offer st = false) pre ->
+  exists A B,
+    run_process cfg other None script (pre ++ PSetOther :: post) = A ++ B /\
+    Forall (fun o => match po_flag o with
+                     | Some b => b = false
+                     | None => po_panicked o = true /\ po_emitted o = [] /\ po_handled o = [] /\ po_evals o = []
+                     end) A /\
+    Forall (fun o => po_panicked o = false /\ po_emitted o = [] /\ po_handled o = [] /\
+                     match po_flag o with Some f => f = true | None => True end) B.
+Proof. exact process_lifecycle_other. Qed.
+
+(* the extracted root run_macros with a client in the holder: invocation by invocation the machine
+   ends where the reference send ends - same strings to the sink, same errors to the handler, no
+   panic; where the reference is undefined (no such impl) the machine is stuck having emitted and
+   handled nothing; the sink's answers are consumed in step (both sides thread the same script) *)
+Theorem c17_run_macros : forall cfg invs script,
+  Forall2 (fun s r => m_panicked s = false /\
+                      match r with
+                      | Some o => m_stuck s = false /\ m_emitted s = o_emitted o /\ m_handled s = o_handled o
+                      | None => m_stuck s = true /\ m_emitted s = [] /\ m_handled s = []
+                      end)
+          (run_macros (Some cfg) invs script) (reference_sends cfg invs script).
+Proof. exact run_macros_reference. Qed.
+
+(* ... each invocation evaluates its argument expressions once, in the written order *)
+Theorem c17_run_macros_evals : forall cfg invs script,
+  map m_evals (run_macros (Some cfg) invs script) = map (fun inv => eval_order (length (i_tags inv))) invs.
+Proof. exact run_macros_evals. Qed.
+
+(* run_macros without a client: every invocation panics at once; nothing evaluated, emitted,
+   handled, and the script is passed on untouched *)
+Theorem c17_run_macros_unset : forall invs script,
+  run_macros None invs script =
+  map (fun _ => {| m_client := None; m_call := None; m_evals := []; m_emitted := []; m_handled := [];
+                   m_script := script; m_panicked := true; m_stuck := false |}) invs.
+Proof. exact run_macros_unset. Qed.
+
+(* the two roots agree: a process that holds its own client and only invokes IS run_macros *)
+Theorem c17_process_is_run_macros : forall cfg other invs script,
+  run_process cfg other (Some (true, cfg)) script (map PInvoke invs) =
+  map (fun s => {| po_panicked := m_panicked s; po_stuck := m_stuck s; po_emitted := m_emitted s;
+                   po_handled := m_handled s; po_evals := m_evals s; po_flag := None |})
+      (run_macros (Some cfg) invs script).
+Proof. exact process_is_run_macros. Qed.
+
+(* non-vacuity: invoke and read before the set (panic / "not set"), set, invoke (first answer of the
+   script: Accept), a late offer and a read ("set"), invoke (second answer: the refusal reaches the
+   handler) *)
+Example c17_process_split_witness :
+  let cfg := {| c_prefix := [112]; c_tags := []; c_container := None |}%N in
+  let other := {| c_prefix := [113]; c_tags := []; c_container := None |}%N in
+  let inv k := {| i_macro := StatsdCount; i_key := [k]; i_arg := AI64 1; i_tags := [] |} in
+  let steps := [PInvoke (inv 97); PIsSet; PSet; PInvoke (inv 98); PSetOther; PGet; PInvoke (inv 99)]%N in
+  map (fun o => (po_panicked o, po_emitted o, po_handled o, po_flag o))
+      (run_process cfg other None [Accept; Refuse 5 9]%N steps) =
+  [(true, [], [], None); (false, [], [], Some false);
+   (false, [[112;46;98;58;49;124;99]%N], [], None); (false, [], [], Some true);
+   (false, [[112;46;99;58;49;124;99]%N], [EIo 5 9], None)].
+Proof. vm_compute. reflexivity. Qed.
+
+Example c17_run_macros_witness :
+  let cfg := {| c_prefix := [112]; c_tags := []; c_container := None |}%N in
+  let inv k := {| i_macro := StatsdCount; i_key := [k]; i_arg := AI64 1; i_tags := [] |} in
+  map (fun s => (m_emitted s, m_handled s, m_panicked s, m_stuck s))
+      (run_macros (Some cfg) [inv 98; inv 99]%N [Accept; Refuse 5 9]%N) =
+  [([[112;46;98;58;49;124;99]%N], [], false, false); ([[112;46;99;58;49;124;99]%N], [EIo 5 9], false, false)] /\
+  map (option_map (fun o => (o_emitted o, o_handled o)))
+      (reference_sends cfg [inv 98; inv 99]%N [Accept; Refuse 5 9]%N) =
+  [Some ([[112;46;98;58;49;124;99]%N], []); Some ([[112;46;99;58;49;124;99]%N], [EIo 5 9])].
+Proof. vm_compute. split; reflexivity. Qed.
